@@ -233,10 +233,33 @@ pub fn payload_small() -> impl Strategy<Value = Vec<u8>> {
     ]
 }
 
+/// a well-formed header whose region covers only its first records: 1..3 records follow the
+/// region ("dribbles"), either with new tags or repeating a tag from inside the region
+pub fn dribble_header(sig: bool) -> BoxedStrategy<RawHeader> {
+    use crate::refimpl::fmt::{layout_with_dribbles, Val, TAG_HEADERIMMUTABLE, TAG_HEADERSIGNATURES};
+    use crate::refimpl::tags;
+    (1usize..4, any::<bool>(), "[a-z]{0,6}", any::<u32>())
+        .prop_map(move |(n, dup, text, num)| {
+            let mut entries: Vec<(u32, Val)> = if sig {
+                vec![(tags::SIG_SHA1, Val::s("da39a3ee5e6b4b0d3255bfef95601890afd80709")), (tags::SIG_MD5, Val::Bin(vec![7; 16])), (tags::SIG_SIZE, Val::Int32(vec![num]))]
+            } else {
+                crate::gen::filepkg::basic_entries("dribble")
+            };
+            entries.sort_by_key(|e| e.0);
+            let inside: Vec<u32> = entries.iter().map(|e| e.0).collect();
+            for k in 0..n {
+                let tag = if dup { inside[(num as usize + k) % inside.len()] } else { 5000 + k as u32 * 3 + (num % 3) };
+                entries.push((tag, if k % 2 == 0 { Val::s(&text) } else { Val::Int32(vec![num, 1]) }));
+            }
+            layout_with_dribbles(&entries, Some(if sig { TAG_HEADERSIGNATURES } else { TAG_HEADERIMMUTABLE }), n)
+        })
+        .boxed()
+}
+
 pub fn raw_package(wild: bool) -> impl Strategy<Value = RawPackage> {
     (
         lead_any(),
-        raw_header(true, wild, 6),
+        prop_oneof![8 => raw_header(true, wild, 6).boxed(), 1 => dribble_header(true)],
         prop::bool::weighted(0.3),
         // arbitrary padding, or padding that looks like the start of a header / a lead
         prop_oneof![
@@ -246,7 +269,7 @@ pub fn raw_package(wild: bool) -> impl Strategy<Value = RawPackage> {
             1 => Just([0, 0x8e, 0xad, 0xe8, 0x01, 0, 0, 0]),
             1 => Just([0xed, 0xab, 0xee, 0xdb, 3, 0, 0, 0]),
         ],
-        raw_header(false, wild, 14),
+        prop_oneof![8 => raw_header(false, wild, 14).boxed(), 1 => dribble_header(false)],
         payload_small(),
     )
         .prop_map(|(lead, sig, nonzero_pad, padbytes, hdr, payload)| {
